@@ -271,14 +271,27 @@ def _factor_long_intermediate(expr: e.Expr, itmd: list[EriOrbenergy],
                 if len(tensor_obj) > 2:
                     raise ValueError("Expected the term to be at most of "
                                      f"length 2. Got: {tensor_obj}.")
+                unsorted_itmd_indices = itmd_indices
+                tensor_factor = 1
                 for obj in tensor_obj.objects:
                     if isinstance(obj.base, SymbolicTensor):
                         itmd_indices = obj.idx
                     elif obj.sympy.is_number:
                         variant_data['factor'] *= obj.sympy
+                        tensor_factor *= obj.sympy
                     else:
                         raise TypeError("Only expected tensor and prefactor."
                                         f"Found {obj} in {tensor_obj}")
+                # - exploiting the tensor symmetry might have permuted the
+                #   itmd indices: the matched itmd term (for the unsorted
+                #   indices) corresponds to another itmd term for the
+                #   sorted indices, e.g., the second term of
+                #   (1 - P_ij) X for the indices ji is the first term for
+                #   the indices ij (times -1).
+                sorted_itmd_i = _map_itmd_term_on_sorted_indices(
+                    itmd_i, unsorted_itmd_indices, itmd_indices,
+                    tensor_factor, itmd_default_symbols, itmd_term_map
+                )
 
                 # check if we already found another variant that gives the
                 # same itmd_indices and remainder (an identical result that
@@ -295,7 +308,7 @@ def _factor_long_intermediate(expr: e.Expr, itmd: list[EriOrbenergy],
                 # - check if the current itmd_term can be mapped onto other
                 #   itmd terms
                 matching_itmd_terms = _map_on_other_terms(
-                    itmd_i, remainder, itmd_term_map, itmd_indices,
+                    sorted_itmd_i, remainder, itmd_term_map, itmd_indices,
                     itmd_default_symbols
                 )
 
@@ -724,6 +737,44 @@ def _get_remainder(term: EriOrbenergy, obj_i: list[int],
     if rem.provided_target_idx is None:  # no target indices set
         rem.set_target_idx(term.eri.target)
     return rem
+
+
+def _map_itmd_term_on_sorted_indices(itmd_i: int, unsorted_indices: tuple,
+                                     sorted_indices: tuple, factor,
+                                     itmd_default_idx: tuple,
+                                     itmd_term_map) -> int:
+    """
+    Determines the itmd_term (by index) that corresponds to the itmd_term
+    itmd_i if the intermediate indices are sorted by means of the tensor
+    symmetry of the intermediate (unsorted_indices -> factor * sorted_indices).
+    Only index permutations that are a product of disjoint transpositions
+    are considered.
+    """
+    from .symmetry import Permutation, PermutationProduct
+
+    if unsorted_indices == sorted_indices or \
+            len(set(sorted_indices)) != len(sorted_indices) or \
+            sorted(unsorted_indices, key=str) != \
+            sorted(sorted_indices, key=str):
+        return itmd_i
+    # position of each index in the sorted indices
+    sorted_pos = {s: i for i, s in enumerate(sorted_indices)}
+    perms = []
+    for i, s in enumerate(unsorted_indices):
+        j = sorted_pos[s]
+        if i == j:
+            continue
+        # only transpositions: the index at position j has to move to i
+        if sorted_pos[unsorted_indices[j]] != i:
+            return itmd_i
+        if i < j:
+            perms.append(
+                Permutation(itmd_default_idx[i], itmd_default_idx[j])
+            )
+    if not perms:
+        return itmd_i
+    term_map: dict = itmd_term_map[(PermutationProduct(perms), factor)]
+    return term_map.get(itmd_i, itmd_i)
 
 
 def _map_on_other_terms(itmd_i: int, remainder: e.Expr,
